@@ -18,7 +18,8 @@ CLAIMED = {
     "C02": (JX, "symbolic execution of the jaxprs of the three times_group_element entry points, z3 (QF_LRA/QF_NRA) per configuration",
             "For each enumerated (d, shape, k, p) and every group element (pairs for the homomorphism) z3 proves the action equals the "
             "defining formula, composes, preserves pixel norms, for ALL real images; metadata read off the traced objects.",
-            "Reals; bounded shapes/orders (k<=3); d=3 homomorphism on generator pairs in the quick tier; trusted as C01.", "4/C02"),
+            "Reals; bounded shapes/orders (k<=3); d=3 homomorphism on generator pairs in the quick tier; trusted as C01.  Storage types other than float32 "
+            "(half, complex, integer data) are outside the solver claim: the check only records concrete facts (exact values of the action on exactly representable data).", "4/C02"),
     "C03": (JX, "real generation of the filter families + z3 (QF_LRA) over symbolic weights / a symbolic generic filter; Burnside count in exact integers",
             "For each enumerated (G, d, M, k, p) z3 proves invariance for ALL weights, linear independence, and completeness (no invariant filter "
             "outside the span); the family size equals the Burnside dimension.",
@@ -30,7 +31,8 @@ CLAIMED = {
     "C05": (JX, "typed enumeration of expression trees over the real GeometricImage methods; symbolic execution of each tree's jaxpr; z3 (QF_NRA) per tree and group element",
             "For each enumerated well-typed expression tree (depth<=2, seeded depth 3) and each g, z3 proves E(g.leaves) = g.E(leaves) with the "
             "DECLARED (k,parity) for ALL real leaf values; plus contraction-order and product-commutativity identities.",
-            "Reals; tiny images (2x2, 3x3, 2x2x2) - the operations are pixel-local except convolve_with (3x3 filters); trees sampled in the quick tier.", "4/C05"),
+            "Reals; tiny images (2x2, 3x3, 2x2x2) - the operations are pixel-local except convolve_with (3x3 filters); trees sampled in the quick tier; "
+            "a table of the declared (k, parity, D, is_torus) of every GeometricImage operation is read off the real objects (discrete facts, no solver).", "4/C05"),
     "C06": (JX, "symbolic execution of the jaxpr of the real ConvContract.__call__ with symbolic weights, biases and inputs; z3 (QF_NRA) per cell and group element",
             "For each enumerated layer configuration z3 proves layer(g.x) = g.layer(x) for ALL real weights, biases and inputs and every g of the "
             "bank's group (and unit shifts on toroidal inputs), each output block with its declared type.",
@@ -63,11 +65,13 @@ CLAIMED = {
     "C16": (JX, "symbolic execution of the jaxprs of autoregressive_step / autoregressive_map with the model as an uninterpreted function; z3 (QF_UFLRA)",
             "For each enumerated (signature, n, past) z3 proves the rollout equals n explicit applications with the sliding-window update for EVERY model "
             "(uninterpreted function of the whole input) and all inputs.",
-            "n<=3 (6), past<=3 (5); the model reads its input by type (canonical order); replay uses a fixed generic nonlinear model.", "4/C16"),
+            "n<=3 (6), past<=3 (5); the model reads its input by type (canonical order) and its function symbol depends on the image's D and boundary flags; replay uses "
+            "a fixed generic nonlinear model.  Storage-type promotion of the fed-back prediction (int / half windows) is outside the solver claim: concrete facts only.", "4/C16"),
     "C17": (JX, "symbolic execution of the jaxpr of get_batches with a symbolic permutation (boolean permutation-matrix variables); z3 per (L,B,devices)",
             "For each enumerated (L, B, device count, number of co-batched multi-images) z3 proves for EVERY permutation that slot (i,r) of every multi-image "
             "and type holds sample pi(iB+r), floor(L/B) batches, device axis = reshape; identity order without a key.",
-            "L<=6 (10); random.permutation: the real call is evaluated eagerly first (must be valid and yield a permutation of range(L)), then replaced by a symbolic permutation; jax's PRNG not analysed.", "4/C17"),
+            "L<=6 (10); random.permutation: the real call is evaluated eagerly first (must be valid and yield a permutation of range(L)), then replaced by a symbolic permutation; jax's PRNG not analysed.  "
+            "If the current get_batches cannot be traced with a symbolic permutation (Python control flow on index values), all L! permutations are run eagerly instead and the evidence says so.", "4/C17"),
     "C18": (JX, "symbolic execution of the jaxprs of the three losses vs. their written-out definitions; z3 (QF_NRA); lemma-based non-negativity",
             "For each enumerated type set / insertion-order pair / jit history z3 proves each loss equals its definition for ALL predictions and targets, "
             "is 0 on equal arguments, >= 0, invariant under every g, and the per-step losses sum to the total.",
@@ -75,7 +79,8 @@ CLAIMED = {
     "C19": (XH, "CrossHair (per-path z3) on the real TrainLoss/ValLoss/EpochStop.stop: bounded symbolic histories vs. a reference state machine + one inductive step from an arbitrary state",
             "CrossHair confirms over all paths that for symbolic loss histories (len<=3 quick, <=5 thorough), patience and min_delta the real conditions stop at exactly the "
             "specified epoch and hand back the best model, for float and non-float scalar representations; the inductive step covers any history length.",
-            "Bounds: len<=3 (5), patience<=3 (5), losses in [0,100]; non-float scalars modelled by a wrapper + float() stub, validated with genuine np.float32/jax scalars.", "4/C19"),
+            "Bounds: len<=3 (5), patience<=3 (5), losses in [0,100]; non-float scalars modelled by a wrapper + float() stub, validated with genuine np.float32/jax scalars.  "
+            "Float rounding and non-finite losses are outside CrossHair's real-valued floats: the check adds concrete runs with genuine float32 / bfloat16 scalars (one-ulp improvements, NaN / inf after a finite first epoch).", "4/C19"),
     "C08": (JX, "symbolic execution of the jaxprs of the real norm / nonlinearity / pooling blocks with symbolic parameters; exact argmax encoding (ITE) under tie-freeness; eigh as a contract stub; z3 (QF_UFNRA)",
             "For each enumerated block configuration and every g z3 proves block(g.x) = g.block(x) for ALL inputs and ALL learnable parameter values "
             "(and patch-multiple shifts for pooling); max-pool under the statement's unique-maximiser precondition.",
